@@ -67,7 +67,7 @@ def RepeaterPlaceholder(token: tokens.RepeaterPlaceholder, state):
             break
 
     state.inserted = True
-    return state.get_text(repeater.value) if repeater else None
+    return state.get_text(repeater.value if repeater else None)
 
 
 def RepeaterNumber(token: tokens.RepeaterNumber, state):
